@@ -193,6 +193,9 @@ class P:
                 t = None
                 if self.accept(":"):
                     t = self.ty()
+                if self.accept(";"):
+                    stmts.append(("letdecl", pat, t))     # `let x;` assigned later
+                    continue
                 self.eat("=")
                 e = self.expr()
                 self.eat(";")
@@ -220,7 +223,7 @@ class P:
                 else:
                     tail = e
                 break
-            if e[0] in ("if", "while", "match"):   # block-like statement without trailing semicolon
+            if e[0] in ("if", "while", "match", "for", "foreach"):   # block-like statement without trailing semicolon
                 stmts.append(("expr", e))
                 continue
             raise Unsupported("statement near %r" % (self.peek()[1],))
@@ -391,6 +394,15 @@ class P:
             self.next()
             c = self.expr()
             return ("while", c, self.block())
+        if v == "for":
+            self.next()
+            iv = self.next()[1]
+            self.eat("in")
+            lo = self.expr()
+            if self.accept(".."):
+                hi = self.expr()
+                return ("for", iv, lo, hi, self.block())
+            return ("foreach", iv, lo, self.block())
         if v == "unsafe":
             self.next()
             return self.block()
@@ -902,7 +914,8 @@ class Tr:
         if m == "count_ones" and tr_ == "u64":
             return br, "(popcnt64 %s)" % paren(ar), "u32"
         if m in ("high", "low", "split") and tr_ == "u128":
-            return self.apply(f, "dw_" + m, [], env, recv=("__atom", paren(ar)))
+            b2, a2, t2 = self.apply(f, "dw_" + m, [], env, recv=("__atom", paren(ar)))
+            return br + b2, a2, t2
         raise Unsupported("method ." + m)
 
     # ---- statements, CPS: `fin(env)` yields the code after the last statement
@@ -933,7 +946,7 @@ class Tr:
 
         def walk(b):
             for s in b[1]:
-                if s[0] == "let":
+                if s[0] in ("let", "letdecl"):
                     pv(s[1])
                 elif s[0] == "assign":
                     lhs(s[1])
@@ -943,6 +956,10 @@ class Tr:
                         walk(s[1][3])
                 elif s[0] == "expr" and s[1][0] == "while":
                     walk(s[1][2])
+                elif s[0] == "expr" and s[1][0] == "for":
+                    walk(s[1][4])
+                elif s[0] == "expr" and s[1][0] == "foreach":
+                    walk(self.desugar_foreach(s[1])[4])
                 elif s[0] == "expr" and s[1][0] == "mcall" and s[1][1][0] == "var" \
                         and 0 in self.sigs.get("U." + s[1][2], (0, 0, 0, 0, set()))[4]:
                     lhs(s[1][1])
@@ -950,6 +967,36 @@ class Tr:
                     self.kernel_targets(x, lhs)
         walk(blk)
         return out
+
+    def desugar_foreach(self, e):
+        """`for x in xs { .. *x .. }` over a slice `xs` (also `xs.iter_mut()`, `&mut xs`):
+        `for i_ in 0..xs.len() { .. xs[i_] .. }`.  The loop variable may shadow the slice's name."""
+        x, src, body = e[1], e[2], e[3]
+        while True:
+            if src[0] == "mcall" and src[2] in ("iter_mut", "iter") and not src[3]:
+                src = src[1]
+            elif src[0] == "un" and src[1] in ("&", "*"):
+                src = src[2]
+            else:
+                break
+        if src[0] != "var":
+            raise Unsupported("for over a non-variable")
+        ix = "i_" + x
+        elem = ("index", src, ("var", ix))
+
+        def sub(t, shadow=False):
+            if isinstance(t, list):
+                return [sub(y) for y in t]
+            if not isinstance(t, tuple):
+                return t
+            if t[:2] == ("un", "*") and t[2] == ("var", x):
+                return elem
+            if t == ("var", x) and x != src[1]:
+                return elem
+            if t == ("var", x):
+                raise Unsupported("loop variable used without dereference while shadowing the slice")
+            return tuple(sub(y) for y in t)
+        return ("for", ix, ("num", 0, None), ("mcall", src, "len", []), sub(body))
 
     def kernel_targets(self, e, lhs):
         """`algorithms::addmul(&mut x.limbs, ..)` anywhere in e mutates x."""
@@ -996,6 +1043,12 @@ class Tr:
             f.tables.append((name, [x[1] for x in s[3][1]]))
             env = dict(env)
             env[s[1]] = (name, s[2])
+            return rest(env)
+        if k == "letdecl":
+            if s[1][0] != "pvar":
+                raise Unsupported("pattern declaration without initialiser")
+            env = dict(env)
+            env[s[1][1]] = (s[1][1], s[2])      # type None until the first assignment
             return rest(env)
         if k == "let" and s[3][0] == "try":
             # `let p = E?;` in a function returning Option: None is returned at once
@@ -1064,8 +1117,13 @@ class Tr:
             if tgt[0] == "tuple":
                 parts = [target(x) for x in tgt[1]]
                 tys = ("tuple", [x[1] for x in parts])
-                b, a, t = self.ex(f, rhs, env, tys)
+                b, a, t = self.ex(f, rhs, env, tys if all(x is not None for x in tys[1]) else None)
                 post = [c for x in parts for c in x[2]]
+                if isinstance(t, tuple) and t[0] == "tuple" and len(t[1]) == len(parts):
+                    env = dict(env)
+                    for x, tg, ty1 in zip(parts, tgt[1], t[1]):
+                        if tg[0] == "var" and env[tg[1]][1] is None:
+                            env[tg[1]] = (tg[1], ty1)
                 return "%s let '(%s) := %s in %s\n  %s" % (" ".join(b), ", ".join(x[0] for x in parts), a,
                                                          " ".join(post), rest(env))
             raise Unsupported("assignment target")
@@ -1159,6 +1217,39 @@ class Tr:
                 env[iv] = ("(Z.max %s %s)" % (paren(lo), paren(ah)), "usize")
                 return "%s do %s <- for_range %s %s %s (fun %s %s => let '%s := %s in %s) ;\n  let '%s := %s in\n  %s" % (
                     " ".join(bh), w, paren(lo), paren(ah), cur, iv, st, pat, st, bcode, pat, w, rest(env))
+            if e[0] == "foreach":
+                e = self.desugar_foreach(e)
+            if e[0] == "for":
+                # `for i in LO..HI { body }`: the body runs for i = LO .. HI-1 on the tuple of the
+                # variables it assigns; LO and HI are evaluated once, before the loop
+                iv, body = e[1], e[4]
+                if body[2] is not None:
+                    raise Unsupported("for body with a value")
+                vs = [v for v in self.assigned(body) if v != iv]
+                if iv in self.assigned(body):
+                    raise Unsupported("loop counter assigned in the body")
+                for v in vs:
+                    if v not in env:
+                        raise Unsupported("assignment to undeclared " + v)
+                bl, al, _ = self.ex(f, e[2], env, "usize")
+                bh, ah, _ = self.ex(f, e[3], env, "usize")
+                tup = lambda en: ("(" + ", ".join(en[v][0] for v in vs) + ")") if len(vs) != 1 else en[vs[0]][0]
+                pat = ("(" + ", ".join(vs) + ")") if len(vs) != 1 else vs[0]
+                if not vs:
+                    raise Unsupported("for loop without effect")
+                env2 = dict(env)
+                env2[iv] = (iv, "usize")
+                for v in vs:
+                    env2[v] = (v, env[v][1])
+                bcode = self.stmts(f, body[1], 0, env2, lambda en: "Val " + tup(en), retty)
+                f.impure = True
+                w, st = f.fresh(), f.fresh()
+                cur = tup(env)
+                env = dict(env)
+                for v in vs:
+                    env[v] = (v, env[v][1])
+                return "%s do %s <- for_range %s %s %s (fun %s %s => let '%s := %s in %s) ;\n  let '%s := %s in\n  %s" % (
+                    " ".join(bl + bh), w, paren(al), paren(ah), cur, iv, st, pat, st, bcode, pat, w, rest(env))
             if e[0] in ("call", "mcall"):            # value discarded
                 b, a, t = self.ex(f, e, env)
                 return "%s\n  %s" % (" ".join(b), rest(env))
@@ -1282,6 +1373,16 @@ TARGETS = [
     ("src/algorithms/div/reciprocal.rs", None, "reciprocal_2_mg10", "reciprocal_2_mg10", "g_reciprocal_2_mg10", None),
     ("src/algorithms/div/small.rs", None, "div_2x1_mg10", "div_2x1_mg10", "g_div_2x1_mg10", None),
     ("src/algorithms/div/small.rs", None, "div_3x2_mg10", "div_3x2_mg10", "g_div_3x2_mg10", None),
+    ("src/algorithms/div/reciprocal.rs", None, "reciprocal_ref", "reciprocal_ref", "g_reciprocal_ref", None),
+    ("src/algorithms/div/small.rs", None, "div_2x1_ref", "div_2x1_ref", "g_div_2x1_ref", None),
+    ("src/algorithms/div/small.rs", None, "div_3x2_ref", "div_3x2_ref", "g_div_3x2_ref", None),
+    # limb-slice kernels with `for i in 0..n` / `for x in xs` loops (for_range over idx/upd)
+    ("src/algorithms/add.rs", None, "adc_n", "adc_n", "g_adc_n", None),
+    ("src/algorithms/add.rs", None, "sbb_n", "sbb_n", "g_sbb_n", None),
+    ("src/algorithms/mul.rs", None, "mul_nx1", "mul_nx1", "g_mul_nx1", None),
+    ("src/algorithms/mul.rs", None, "addmul_nx1", "addmul_nx1", "g_addmul_nx1", None),
+    ("src/algorithms/mul.rs", None, "submul_nx1", "submul_nx1", "g_submul_nx1", None),
+    ("src/algorithms/shift.rs", None, "shift_left_small", "shift_left_small", "g_shift_left_small", None),
     # inherent methods of Uint<BITS, LIMBS>: generated with leading (BITS LIMBS : Z) parameters
     ("src/lib.rs", UINT_IMPL, "masked", "U.masked", "g_masked", "uint"),
     ("src/lib.rs", UINT_IMPL, "from_limbs", "U.from_limbs", "g_from_limbs", "uint"),
